@@ -143,5 +143,5 @@ def run(ctx):
     ctx.assumptions.append('generator exclusions in force: %s' % (
         sorted(k for k, v in ppgen.EXCL.items() if not v[0]) or 'none'))
     replay_known(ctx)
-    n = ctx.n(250, 30000)
+    n = ctx.n(200, 30000)
     pmap(lambda i: _case(ctx, i), range(n), workers=8)
